@@ -48,7 +48,14 @@ pub fn resumed_connection(rep: &mut Rep, idx: &mut u64) {
                     w.server_disconnect(0x8b, 1, false);
                 }
                 w.settle_check();
-                let resumed = w.resume_full(ResumeOpts { secs_ago: 1, sei: Some(3600), receive_max: rmax, ..Default::default() });
+                // with four or more exchanges carried over (the fourth publish has a long multi-byte topic) every second case
+                // resumes under a Maximum Packet Size of 20 bytes: what was sent before is sent again all the same, and its
+                // future completes on the acknowledgement that follows
+                let mps = if unfinished >= 4 && rep_k == 1 { Some(20u32) } else { None };
+                if mps.is_some() {
+                    rep.add("resumptions_under_a_limit_below_a_carried_over_publish", 1);
+                }
+                let resumed = w.resume_full(ResumeOpts { secs_ago: 1, sei: Some(3600), receive_max: rmax, max_packet: mps, ..Default::default() });
                 w.settle_check();
                 if resumed && !w.blind {
                     w.start(0, Kind::Sub);
@@ -379,48 +386,7 @@ pub fn run(rep: &mut Rep) {
         let seed = rep.seed;
         explore_world(rep, "exhc", depth, &move || World::boot(WorldCfg { seed, ..Default::default() }), &ca);
     }
-    // identifier pairs: two operations outstanding at once whose packet identifiers share the low byte, share the
-    // high byte, are byte-swapped or differ in one bit - a correlation key that loses or mixes identifier bits shows here
-    let pairs: [(u16, u16); 12] = [(1, 257), (255, 511), (256, 512), (0x0101, 0x0201), (1, 0x8001), (0x00ff, 0xff00), (0x1234, 0x3412), (2, 0x0202), (65535, 255), (0x7fff, 0xffff), (3, 0x0300), (0x0100, 0x0001)];
-    let kinds = [Kind::Pub1, Kind::Pub2, Kind::Sub, Kind::Unsub];
-    let mut idx = 10_000_000u64;
-    rep.note("identifier-pair sweep: every pair of {pub1, pub2, sub, unsub} outstanding together with packet identifiers (via hook H2) sharing the low byte / high byte / byte-swapped / one bit apart, acknowledged in both orders");
-    for ka in kinds {
-        for kb in kinds {
-            for (ida, idb) in pairs {
-                for b_first in [false, true] {
-                    let id = format!("idpair:{}:{}:{ida}:{idb}:{}", ka.name(), kb.name(), b_first as u8);
-                    idx += 1;
-                    if !rep.take(idx, &id) {
-                        continue;
-                    }
-                    let mut w = World::boot(WorldCfg { seed: rep.seed, seed_ids: Some((ida, 7)), ..Default::default() });
-                    let a = w.start(0, ka);
-                    w.settle_check();
-                    w.sim.handles[0].as_ref().unwrap().verif_seed_ids(idb, 900);
-                    let b = w.start(1, kb);
-                    w.settle_check();
-                    let order = if b_first { [b, a] } else { [a, b] };
-                    for stage in [1u8, 2] {
-                        for &op in &order {
-                            if w.ackable().contains(&(op, stage)) {
-                                w.deliver_ack(op, stage, if op == a { 0 } else { 1 }, 1);
-                                w.settle_check();
-                            }
-                        }
-                    }
-                    super::script::finish(&mut w);
-                    rep.add("evaluations", 1);
-                    rep.add("identifier_pairs", 1);
-                    rep.distinct(&(ka, kb, ida, idb, b_first));
-                    if super::harvest(rep, &mut w, &id) == 0 {
-                        rep.sample(|| format!("{id}: both completed with their own acknowledgement"));
-                    }
-                    super::add_counters(rep, &w);
-                }
-            }
-        }
-    }
+    let mut idx = identifier_pairs(rep, &[Kind::Pub1, Kind::Pub2, Kind::Sub, Kind::Unsub]);
     // requests issued before run() is first polled wait in the queue and are served in order once it runs
     rep.note("early operations: 1-7 operations of every kind started after connect() returned and before run() is first polled (Receive Maximum absent / 1 / 2), then acknowledged in PRNG order: same results as if issued while running; a third of the cases cancel one of them before run() starts");
     let ekinds = [Kind::Pub1, Kind::Sub, Kind::Pub2, Kind::Ping, Kind::Unsub, Kind::Pub0, Kind::Pub1];
@@ -650,4 +616,52 @@ pub fn run(rep: &mut Rep) {
     rep.note(&format!("{} walks under Maximum Packet Size 64 / 100 with every third subscribe / unsubscribe and the PubBig publishes larger than that", walks / 2));
     walk_world(rep, "walkmps", walks / 2, steps, &|s| World::boot(WorldCfg { seed: s, max_packet: Some(if s % 2 == 0 { 64 } else { 100 }), order: (s % 4) as u8, ..Default::default() }), &wm);
     walk_world(rep, "walkrc", walks, steps, &|s| World::boot(WorldCfg { seed: s, sei: if s % 3 == 0 { None } else { Some(3600) }, order: (s % 4) as u8, ..Default::default() }), &wr);
+}
+
+/// Two operations outstanding at once whose packet identifiers share the low byte, share the high byte, are byte-swapped,
+/// differ in one bit or lie 1024 apart, acknowledged in both orders: each completes on the acknowledgement bearing its own
+/// identifier and type. Returns the case index reached (C05 runs it over all kinds, C06 over the publishes).
+pub fn identifier_pairs(rep: &mut Rep, kinds: &[Kind]) -> u64 {
+    // identifier pairs: two operations outstanding at once whose packet identifiers share the low byte, share the
+    // high byte, are byte-swapped or differ in one bit - a correlation key that loses or mixes identifier bits shows here
+    let pairs: [(u16, u16); 15] = [(1, 1025), (5, 0x0405), (0x0301, 0x0701), (1, 257), (255, 511), (256, 512), (0x0101, 0x0201), (1, 0x8001), (0x00ff, 0xff00), (0x1234, 0x3412), (2, 0x0202), (65535, 255), (0x7fff, 0xffff), (3, 0x0300), (0x0100, 0x0001)];
+    let mut idx = 10_000_000u64;
+    rep.note("identifier-pair sweep: every pair of {pub1, pub2, sub, unsub} outstanding together with packet identifiers (via hook H2) sharing the low byte / high byte / byte-swapped / one bit apart, acknowledged in both orders");
+    for &ka in kinds {
+        for &kb in kinds {
+            for (ida, idb) in pairs {
+                for b_first in [false, true] {
+                    let id = format!("idpair:{}:{}:{ida}:{idb}:{}", ka.name(), kb.name(), b_first as u8);
+                    idx += 1;
+                    if !rep.take(idx, &id) {
+                        continue;
+                    }
+                    let mut w = World::boot(WorldCfg { seed: rep.seed, seed_ids: Some((ida, 7)), ..Default::default() });
+                    let a = w.start(0, ka);
+                    w.settle_check();
+                    w.sim.handles[0].as_ref().unwrap().verif_seed_ids(idb, 900);
+                    let b = w.start(1, kb);
+                    w.settle_check();
+                    let order = if b_first { [b, a] } else { [a, b] };
+                    for stage in [1u8, 2] {
+                        for &op in &order {
+                            if w.ackable().contains(&(op, stage)) {
+                                w.deliver_ack(op, stage, if op == a { 0 } else { 1 }, 1);
+                                w.settle_check();
+                            }
+                        }
+                    }
+                    super::script::finish(&mut w);
+                    rep.add("evaluations", 1);
+                    rep.add("identifier_pairs", 1);
+                    rep.distinct(&(ka, kb, ida, idb, b_first));
+                    if super::harvest(rep, &mut w, &id) == 0 {
+                        rep.sample(|| format!("{id}: both completed with their own acknowledgement"));
+                    }
+                    super::add_counters(rep, &w);
+                }
+            }
+        }
+    }
+    idx
 }
